@@ -56,6 +56,16 @@ pub fn run(seed: u64, n: usize, driver: &str, out: &str) -> serde_json::Value {
                 a.chars().skip(rng.below(500)).take(rng.range(1, 512)).collect()
             }
         };
+        // the script layers: cd::alpha_unicode_split against Model/Layers.v (oracles: std is_alphabetic / to_lowercase)
+        {
+            evals += 1;
+            let real = hooks::alpha_unicode_split(&t);
+            let real_s = if real.is_empty() { "R NONE".to_string() } else { format!("R {}", real.iter().map(|l| hex(l.as_bytes())).collect::<Vec<_>>().join(";")) };
+            let model = drv.layers_model(&t);
+            if model != real_s {
+                diffs.push(json!({"what": "alpha_unicode_split", "text_hex": hex(t.as_bytes()), "real": real_s, "model": model}));
+            }
+        }
         let thr = *rng.pick(&thrs);
         let include: Vec<&'static Language> = match rng.below(6) {
             0 => vec![unknown],
